@@ -77,16 +77,22 @@ async fn verif_replay_hist_admission() {
     // actions that Task::update itself refuses on an OPEN act (error without a code, back without a target, back to an unknown step): nothing changes,
     // and the stored message of the act stays open (C09: it is redelivered until it is acknowledged or closed by an ACCEPTED action)
     {
-        let mut workflow = Workflow::new().with_step(|s| s.with_id("step1").with_act(Act::irq(|a| a.with_key("a")).with_id("a")));
+        let workflow = Workflow::new().with_step(|s| s.with_id("step1").with_act(Act::irq(|a| a.with_key("a")).with_id("a")));
         let pid = utils::longid();
-        let (proc, rt, _emitter, _tx, _rx) = create_proc_signal::<()>(&mut workflow, &pid);
+        // an engine with a channel that asks for acknowledgements (only such a channel stores its messages): the message of the act is never acknowledged
+        let engine = crate::Engine::new().start();
+        let rt = engine.runtime();
+        let chan = engine.channel_with_options(&crate::ChannelOptions { id: "vadm".to_string(), ack: true, ..Default::default() });
+        chan.on_message(|_e| {});
+        let proc = rt.create_proc(&pid, &workflow);
         rt.launch(&proc);
         for _ in 0..200 { if proc.task_by_nid("a").first().map(|t| t.state() == TaskState::Interrupt).unwrap_or(false) { break; } tokio::time::sleep(std::time::Duration::from_millis(10)).await; }
-        tokio::time::sleep(std::time::Duration::from_millis(100)).await;
+        tokio::time::sleep(std::time::Duration::from_millis(200)).await;
         if let Some(a) = proc.task_by_nid("a").first() {
             let stored = || rt.cache().store().messages().query(&crate::store::query::Query::new().push(crate::store::query::Cond::and().push(crate::store::query::Expr::eq("tid", a.id.clone()))).set_limit(100)).map(|p| p.rows).unwrap_or_default()
                 .into_iter().filter(|m| m.pid == pid).map(|m| format!("{}:{:?}", m.key, m.status)).collect::<Vec<_>>();
             let before_msgs = stored();
+            if before_msgs.is_empty() { bad.push("REPLAY-FAIL setup: the message of the open act is not in the store although the channel asks for acknowledgements".into()); }
             for (what, ev, o) in [("error without a code", EventAction::Error, Vars::new()), ("back without a target", EventAction::Back, Vars::new()), ("back to an unknown step", EventAction::Back, Vars::new().with("to", "no-such-step"))] {
                 let before: Vec<(String, TaskState)> = proc.tasks().iter().map(|t| (t.id.clone(), t.state())).collect();
                 let r = rt.do_action(&Action::new(&pid, &a.id, ev, &o));
